@@ -307,7 +307,8 @@ def tla_to_json_lines(prints, key):
     return res
 
 
-def validate_trace(c, module, cfg, path, describe, max_rejects=8, env=None, heap="4g", timeout=1800, count_runs=True):
+def validate_trace(c, module, cfg, path, describe, max_rejects=8, env=None, heap="4g", timeout=1800, count_runs=True,
+                   run_start=None):
     """impl -> spec: validate an NDJSON trace; every rejected line is reported via describe(event) ->
     (fingerprint, text) and cut out so that the rest of the trace is still checked."""
     lines = [l for l in open(path).read().split("\n") if l.strip()]
@@ -328,7 +329,18 @@ def validate_trace(c, module, cfg, path, describe, max_rejects=8, env=None, heap
         fp, text = describe(ev)
         c.report(fp, "trace event rejected by %s: %s" % (module, text), ev)
         rejected += 1
-        del lines[rej - 1]
+        if run_start is None:
+            del lines[rej - 1]
+        else:
+            # events of one run depend on each other: cut the whole run (from its start marker to the next one)
+            a = rej - 1
+            while a > 0 and not run_start(json.loads(lines[a])):
+                a -= 1
+            b = rej
+            while b < len(lines) and not run_start(json.loads(lines[b])):
+                b += 1
+            del lines[a:b]
+            rej = a + 1
         if rejected >= max_rejects:
             c.notes.append("stopped after %d rejected events; %d events left unvalidated" % (rejected, len(lines) - rej + 1))
             total = rej - 1 + rejected
